@@ -573,7 +573,16 @@ def check(run):
         seen.add(stim_signature(s))
     # one harness process and one TLC validation run for both directions (JVM start-up dominates small runs)
     # (4) weak memory, alongside: WakerMeta through RC11 with the ordering table measured from these very runs
-    sums = judge(run, wd, "runs", stims + rstims, acc, tables, extra=lambda t, u: wmm(run, wd, t, u, thorough)) or []
+    # the same runs (those that poll with more than one task waker) with task wakers that share their data pointer and
+    # differ in the vtable only
+    def nparents(st):
+        return len({o.get("p") for o in st.get("dops", []) if o.get("op", "").startswith("poll")})
+    shared = []
+    for st in stims + rstims:
+        if nparents(st) >= 2 and len(shared) < (1500 if thorough else 250):
+            shared.append(dict(st, id=500000 + len(shared), parents="shared-data"))
+    run.cov["shared_data_parent_waker_runs"] = len(shared)
+    sums = judge(run, wd, "runs", stims + rstims + shared, acc, tables, extra=lambda t, u: wmm(run, wd, t, u, thorough)) or []
     replay_drift = sum(1 for s in sums if s["id"] < 100000 and s["drift"] > 0)
 
     # a counterexample of the explorer must be reproduced by the real code, otherwise it is a modelling error
